@@ -377,7 +377,11 @@ pub fn run(case: &J) -> J {
     let Some(src) = case.get("src").and_then(|s| s.as_str()) else {
         return json!({"tool_error": "parse case without src"});
     };
-    let input = src.as_bytes();
+    let stretched = match crate::lexcase::apply_stretch(case, src.as_bytes().to_vec()) {
+        Ok(v) => v,
+        Err(e) => return json!({"tool_error": e}),
+    };
+    let input = &stretched[..];
 
     let arena = Arena::new();
     let ast_arena = Arena::new();
